@@ -3,6 +3,7 @@
 import copy
 import hashlib
 import json
+import re
 import os
 import time
 
@@ -22,14 +23,32 @@ def sig_class(sig: str) -> str:
     return sig
 
 
+STATS = {"worker_retries": 0}
+
+
 def run_plan_checked(plan):
-    r = runner.run_plan(plan, timeout=900)
+    """A fleet worker that dies or has to be killed is re-run. Only if it ends the same way again
+    inside the same decode of a version-skewed delivery (write-ahead markers) is that a C05
+    violation (e.g. SIGKILL-level damage or an endless loop in a Python decoder; C faults and C
+    endless loops are caught in-process by the guarded call). Anything else is HARNESS-ERROR."""
+    r = runner.run_plan(plan, timeout=240)
     if r["status"] == "ok":
         return r["result"]
-    r2 = runner.run_plan(plan, timeout=1800)
+    STATS["worker_retries"] += 1
+    r2 = runner.run_plan(plan, timeout=480)
     if r2["status"] == "ok":
-        raise runner.HarnessFailure("fleet worker failed once (%s) and succeeded on re-run" % r["status"])
-    raise runner.HarnessFailure("fleet worker %s twice: %s" % (r2["status"], (r2.get("stderr") or "")[-1500:]))
+        return r2["result"]  # e.g. killed under memory pressure: the re-run is the execution
+    ins = r2.get("inside")
+    if ins and ins == r.get("inside") and r2["status"] == r["status"] and ins[1].startswith("decode "):
+        label = ins[1]
+        rt = label.split(" ")[1]
+        m = re.search(r"v(\d+)<-v(\d+)", label)
+        rv, sv = (int(m.group(1)), int(m.group(2))) if m else (0, 0)
+        if sv > rv:
+            what = "hang:hard" if r2["status"] == "timeout" else "process-died:rc=%s" % r2.get("rc")
+            viol = {"sig": "%s-%s@decode" % (rt, what), "detail": (r2.get("stderr") or "")[-400:], "s": sv, "r": rv, "runtime": rt, "src_runtime": "?", "t": -1, "hops": 0, "delivery": int(ins[0]), "worker_died": True}
+            return {"violations": [viol], "stats": {}, "probes": {}, "cases": 0, "nontrivial_cases": [], "log_digest_input": [], "sim_time_ms": 0, "versions": len(plan["lineage"]), "bits": []}
+    raise runner.HarnessFailure("fleet worker %s twice (inside %r / %r): %s" % (r2["status"], r.get("inside"), ins, (r2.get("stderr") or "")[-1500:]))
 
 
 def run_seed(prop, seed, ctx):
@@ -58,10 +77,11 @@ def run_seed(prop, seed, ctx):
 
 # ---------------------------------------------------------------- minimising
 def has_sig(plan, sig):
-    r = runner.run_plan(plan, timeout=900)
-    if r["status"] != "ok":
+    try:
+        res = run_plan_checked(plan)
+    except runner.HarnessFailure:
         return False, None
-    for v in r["result"]["violations"]:
+    for v in res["violations"]:
         if v["sig"] == sig:
             return True, v
     return False, None
@@ -269,6 +289,9 @@ def minimise(prop, v, max_seconds=120.0):
     budget = Budget(max_calls=300, max_seconds=max_seconds)
     plan = copy.deepcopy(v["plan"])
     out = dict(v)
+    if v.get("worker_died"):
+        out["minimise_calls"] = 0
+        return out
     if v.get("value") is not None:
         cand = two_node_plan(v)
         budget.tick()
@@ -318,10 +341,8 @@ def write_replay(prop, v, minimised):
 def replay(prop, path):
     with open(path) as f:
         doc = json.load(f)
-    r = runner.run_plan(doc["plan"], timeout=1800)
-    if r["status"] != "ok":
-        return False, doc["signature"], [r["status"]]
-    sigs = sorted({v["sig"] for v in r["result"]["violations"]})
+    res = run_plan_checked(doc["plan"])
+    sigs = sorted({v["sig"] for v in res["violations"]})
     return doc["signature"] in sigs, doc["signature"], sigs
 
 
